@@ -163,6 +163,11 @@ class Facts:
                 out.append(unit_name(u["file"]))
         return out
 
+    def discard(self):
+        """drop a cache entry this run created for a scratch tree (variants of the sensitivity pass are never asked for again)"""
+        if not self.meta.get("cache_hit") and self.meta.get("repo") != REPO:
+            shutil.rmtree(self.root, ignore_errors=True)
+
     def ast_path(self, name):
         return os.path.join(self.root, "ast", name + ".json")
 
@@ -192,12 +197,18 @@ def extract(ndebug=True, verbose=False, repo=None):
     """Build (or fetch from the digest-keyed cache) the facts for REPO's working tree."""
     repo = repo or REPO
     ensure_plugin()
+    _cache_lock_shared()
     dig = input_digest(ndebug, repo)
     dest = os.path.join(CACHE, "facts-" + dig)
     meta_path = os.path.join(dest, "meta.json")
     if os.path.exists(meta_path):
         meta = json.load(open(meta_path))
         meta["cache_hit"] = True
+        try:
+            os.utime(dest, None)      # in use: keeps concurrent runs from pruning it
+        except OSError:
+            pass
+        _prune_cache(keep=dest)
         return Facts(dest, meta)
     t0 = time.time()
     scratch = tempfile.mkdtemp(prefix="rtosc-facts-", dir=os.environ.get("TMPDIR", "/tmp"))
@@ -244,15 +255,41 @@ def extract(ndebug=True, verbose=False, repo=None):
         shutil.rmtree(scratch, ignore_errors=True)
 
 
-def _prune_cache(keep, maxn=6):
+_LOCK_FD = None
+
+
+def _cache_lock_shared():
+    """Every process that reads the cache holds a shared lock on .cache/lock for its lifetime; pruning needs it exclusively."""
+    global _LOCK_FD
+    if _LOCK_FD is None:
+        import fcntl
+        os.makedirs(CACHE, exist_ok=True)
+        _LOCK_FD = os.open(os.path.join(CACHE, "lock"), os.O_RDWR | os.O_CREAT, 0o644)
+        fcntl.flock(_LOCK_FD, fcntl.LOCK_SH)
+    return _LOCK_FD
+
+
+def _prune_cache(keep, maxn=6, min_age_s=300):
+    """Keep the newest `maxn` entries and drop the others once they are `min_age_s` old - but only when no other process is
+    using the cache (checks of different trees run concurrently in the thorough tier and in regression runs, and must not
+    lose an entry while reading it): the shared lock is upgraded without blocking, and pruning is skipped if that fails."""
+    import fcntl
+    fd = _cache_lock_shared()
     try:
+        fcntl.flock(fd, fcntl.LOCK_EX | fcntl.LOCK_NB)
+    except OSError:
+        return
+    try:
+        now = time.time()
         ents = [os.path.join(CACHE, e) for e in os.listdir(CACHE) if e.startswith("facts-")]
         ents.sort(key=lambda p: os.path.getmtime(p), reverse=True)
         for p in ents[maxn:]:
-            if p != keep:
+            if p != keep and now - os.path.getmtime(p) > min_age_s:
                 shutil.rmtree(p, ignore_errors=True)
     except OSError:
         pass
+    finally:
+        fcntl.flock(fd, fcntl.LOCK_SH)
 
 
 if __name__ == "__main__":
